@@ -14,8 +14,10 @@
     (print "signal " s " " (sh (string "kill -" s " $$"))))
   # a child that writes to a closed pipe must die of SIGPIPE as it would under a shell (ignored dispositions are inherited)
   (print "pipeline 0 " (sh "yes | head -1 >/dev/null"))
-  (let [p (os/spawn ["/bin/sh" "-c" "sleep 0.1; echo hi; echo hi; exit 7"] :p {:out :pipe})]
+  # (no clock involved: the child waits for its stdin to end, which happens after the parent has closed the read end)
+  (let [p (os/spawn ["/bin/sh" "-c" "read x; echo hi; echo hi; exit 7"] :p {:in :pipe :out :pipe})]
     (ev/close (p :out))
+    (ev/close (p :in))
     (print "childpipe 0 ok " (os/proc-wait p)))
   # net/address with exactly three arguments, whatever an earlier call left in the next stack slot
   (print "netaddr truthy " (type (do (tuple 1 2 3 4 5 6 7 8) (net/address "127.0.0.1" "80" :datagram))))
